@@ -17,7 +17,7 @@ import (
 
 func init() {
 	Registry["C11"] = Set{
-		Explanation: "Decides structural clauses of the EDF round trip on the built-in codec: E1 registry agreement — for every wire tag the encoder registered for Go type T emits that tag (in the registry entry and inside the function) and the decoder registered under the tag produces T and checks the same tag; encodeX is paired with decodeX; E2 width agreement — per pair, the constant byte counts produced (Extend/AppendByte) equal the constant byte counts consumed (slice advances), every advance is covered by a length guard of the same size, atoms written equal atoms read; E3 length limits — no addition or multiplication is performed in a narrow unsigned type (uint8/16/32) on a decoded length (wrap makes accepted values undecodable), and the largest length each encoder accepts fits the wire field it is converted to; E4 no dynamic format string in the codec, protocol and handshake packages (decoded bytes must never be a format); E5 the discriminator constants agree across encoder guard, encoder cache test, decoder test and cache-id allocator for atoms (255), errors (32767, nil marker 65535) and registered names (4095); E6 cache direction — the handshake builds encode caches from the local Introduce and decode caches from the peer's, in both roles. Added while probing: E7 composite type descriptors: every composite tag the encoder emits has an arm in the decoder's type unfolding checking the same tag; E8 every fixed-width integer access of the codec is big-endian (no other byte order in net/edf). E9 a collection present on the wire is decoded into a made collection on every successful path (nil and empty stay apart); E2r the fixed-width reads a decoder takes from one packet value tile it from offset 0 without gap or overlap. E10 every element-encoder call inside a composite encoder's loop is reached only through a reset of the sticky type-header flag (a missing reset between a map's key and value corrupts maps with interface-typed keys). E6b decode caches are keyed by ids ranged from the PEER's table, never by the local id. E11 no write through a Buffer.Extend window after anything that may grow that buffer (own appending methods, handing the buffer to a callee or as io.Writer). E12 slice/array coders are built only after the zero-wire-size predicate refused element types that take no bytes (encoder, registration, unfolding agree). E13 every successful return of the type unfolding hands back the rest of the fold (a map's value type follows its key type), the caller with a complete fold checks that nothing is left.",
+		Explanation: "Decides structural clauses of the EDF round trip on the built-in codec: E1 registry agreement — for every wire tag the encoder registered for Go type T emits that tag (in the registry entry and inside the function) and the decoder registered under the tag produces T and checks the same tag; encodeX is paired with decodeX; E2 width agreement — per pair, the constant byte counts produced (Extend/AppendByte) equal the constant byte counts consumed (slice advances), every advance is covered by a length guard of the same size, atoms written equal atoms read; E3 length limits — no addition or multiplication is performed in a narrow unsigned type (uint8/16/32) on a decoded length (wrap makes accepted values undecodable), and the largest length each encoder accepts fits the wire field it is converted to; E4 no dynamic format string in the codec, protocol and handshake packages (decoded bytes must never be a format); E5 the discriminator constants agree across encoder guard, encoder cache test, decoder test and cache-id allocator for atoms (255), errors (32767, nil marker 65535) and registered names (4095); E6 cache direction — the handshake builds encode caches from the local Introduce and decode caches from the peer's, in both roles. Added while probing: E7 composite type descriptors: every composite tag the encoder emits has an arm in the decoder's type unfolding checking the same tag; E8 every fixed-width integer access of the codec is big-endian (no other byte order in net/edf). E9 a collection present on the wire is decoded into a made collection on every successful path (nil and empty stay apart); E2r the fixed-width reads a decoder takes from one packet value tile it from offset 0 without gap or overlap. E10 every element-encoder call inside a composite encoder's loop is reached only through a reset of the sticky type-header flag (a missing reset between a map's key and value corrupts maps with interface-typed keys). E6b decode caches are keyed by ids ranged from the PEER's table, never by the local id. E11 no write through a Buffer.Extend window after anything that may grow that buffer (own appending methods, handing the buffer to a callee or as io.Writer). E12 slice/array coders are built only after the zero-wire-size predicate refused element types that take no bytes (encoder, registration, unfolding agree). E13 every successful return of the type unfolding hands back the rest of the fold (a map's value type follows its key type), the caller with a complete fold checks that nothing is left. E12 also counts the map guard (a map whose key and value both take no bytes is refused when encoding and registering); its floor is the number of guards confirmed by hand. E14 the function that encodes an interface-typed value by the encoder of its dynamic type compares a nesting counter with a constant not above the decoder's bound (C16.B6) before the lookup and counts the level on every path (a deeper value would encode and not decode). E15 the value the atom mapping substitutes is compared with the 255 limit before its 16-bit length is written (the callers check the atom before the mapping; a longer length is read as a cache id). E16 reflect.Type.Size() is only ever tested for zero in net/edf: no accept/refuse decision depends on the memory layout of a type (a type with its own marshaling is large in memory and small on the wire).",
 		NotDecided: []string{
 			"equality of decode(encode(v)) over the value space",
 			"behaviour of reflection for composite and registered types (header symmetry of slices/maps/structs is only checked for constant widths)",
@@ -57,6 +57,9 @@ func runC11(p *load.Program, r *core.Report) {
 	c11StaleWindow(p, r)
 	c11UnfoldRemainder(p, r)
 	c11NoProgressElements(p, r, "C11.E12 elements-take-bytes", "C11.E12")
+	c11NestingAgreement(p, r)
+	c11MappedAtomLength(p, r)
+	c11NoMemorySizeBound(p, r)
 }
 
 // c11ReadTiling: E2r — in every decoder of net/edf the fixed-width reads taken from one packet
@@ -1566,7 +1569,7 @@ func c11UnfoldRemainder(p *load.Program, r *core.Report) {
 // error: such a slice would encode to bytes that do not decode, and a nested array of them makes the
 // decoder spin for 2^32 rounds on twenty bytes.
 func c11NoProgressElements(p *load.Program, r *core.Report, rule, rid string) {
-	r.Floor(rule, 6)
+	r.Floor(rule, 12)
 	var pred *ssa.Function
 	for _, f := range funcsOfPkgs(p, "net/edf") {
 		if f.Parent() != nil || len(f.Params) != 1 || f.Params[0].Type().String() != "reflect.Type" || f.Signature.Results().Len() != 1 || f.Signature.Results().At(0).Type().String() != "bool" {
